@@ -26,6 +26,7 @@ import (
 
 	"verif/internal/cli"
 	"verif/internal/core"
+	"verif/internal/gram"
 	"verif/internal/ops"
 )
 
@@ -391,6 +392,14 @@ func checkReported(vc vcase, names, got []string, kind string, fail func(string,
 func relations() {
 	flagSets := [][]string{{}, {"--compact"}, {"--no-uppercase"}, {"--indent", "4"}}
 	inputs := []string{content["unfmt"], content["warn"], "SELECT a FROM t; SELECT b FROM u", "INSERT INTO t (a) VALUES (1)", "SELECT a FROM t -- c\n"}
+	// a sample of Select.tla's statement forms (every eighth in the quick tier)
+	model := gram.FormTexts(run)
+	for i, m := range model {
+		if tier == "thorough" || i%8 == 0 {
+			inputs = append(inputs, m)
+		}
+	}
+	run.Extra["relation_inputs"] = len(inputs)
 	for _, fl := range flagSets {
 		for _, in := range inputs {
 			d := scratch(map[string]string{"f.sql": in, "g.sql": in})
@@ -414,6 +423,13 @@ func relations() {
 			run.Eval(1)
 			if c1.Exit != 0 {
 				fail("check-rejects-written|"+strings.Join(fl, ""), "format --check accepts what format -i wrote with the same options", map[string]any{"written": string(written), "stderr": firstN(c1.Stderr, 200)})
+			}
+			// R3: --check on the original is the verdict "format would not change it"
+			c0 := cli.Run(cli.Opts{Bin: bin, Dir: d, Args: append(append([]string{"format", "--check"}, fl...), "f.sql"), Fsize: -1})
+			run.Eval(1)
+			same := strings.TrimRight(pr.Stdout, "\n") == strings.TrimRight(in, "\n")
+			if (c0.Exit == 0) != same {
+				fail("check-verdict-inconsistent|"+strings.Join(fl, ""), "the verdict of format --check is consistent with the text format prints", map[string]any{"check_exit": c0.Exit, "format_changes_the_text": !same, "printed": firstN(pr.Stdout, 200)})
 			}
 			// R2: what format printed passes --check
 			if err := os.WriteFile(filepath.Join(d, "h.sql"), []byte(pr.Stdout), 0o644); err != nil {
